@@ -604,6 +604,13 @@ def verify_contract(contract: Contract, registry: Registry, timeout_ms=30000, lo
                 result = outcome[1]
                 extra = {"result": result}
                 eframe = Frame(contract, contract.file, contract.cls, dict(frame.old_env), fn=fdef)
+                if getattr(contract, "post_vars", ()):
+                    # variables of an enclosing function that the (nested) function under contract re-binds with
+                    # `nonlocal`: in a postcondition their name denotes the FINAL value, old(name) the entry value
+                    eframe.old_env = dict(frame.old_env)
+                    for pv in contract.post_vars:
+                        if pv in frame.env:
+                            eframe.env[pv] = frame.env[pv]
                 for name, text in contract.ensures.items():
                     f = spec_eval(ev, text, extra, frame=eframe)
                     st.oblige("%s/ens.%s" % (contract.id, name), f, note=text)
